@@ -326,34 +326,67 @@ impl FmtAttribute {
         })
     }
 
-    /// Returns an [`Iterator`] over the additional formatting arguments doing the dereferencing
-    /// replacement in this [`FmtAttribute`] for those [`Placeholder`] representing the provided
-    /// [`syn::Fields`] and requiring it ([`fmt::Pointer`] ones).
+    /// Returns an [`Iterator`] over the additional formatting arguments naming the provided
+    /// [`syn::Fields`] (and `_variant`) this [`FmtAttribute`]'s literal refers to by name:
+    /// - `field = *field` doing the dereferencing replacement for those [`Placeholder`]s requiring
+    ///   it ([`fmt::Pointer`] ones);
+    /// - `field = field` for the other ones. Named arguments are matched by name, while an implicit
+    ///   capture is resolved in the hygiene context of the literal, which isn't the one of the
+    ///   bindings when a `macro_rules!` receives the literal from its caller.
     ///
     /// [`fmt::Pointer`]: std::fmt::Pointer
     fn additional_deref_args<'fmt: 'ret, 'fields: 'ret, 'ret>(
         &'fmt self,
         fields: &'fields syn::Fields,
     ) -> impl Iterator<Item = TokenStream> + 'ret {
-        let used_args = Placeholder::parse_fmt_string(&self.lit.value())
+        let fmt_string = self.lit.value();
+        let mut used_args = Vec::new();
+        let mut pointer_args = Vec::new();
+        for format in parsing::format_string(&fmt_string)
             .into_iter()
-            .filter_map(|placeholder| match placeholder.arg {
-                Parameter::Named(name) if placeholder.trait_name == "Pointer" => {
-                    Some(name)
+            .flat_map(|f| f.formats)
+        {
+            if let Some(parsing::Argument::Identifier(name)) = format.arg {
+                used_args.push(name.to_owned());
+                if format.spec.is_some_and(|s| s.ty == parsing::Type::Pointer) {
+                    pointer_args.push(name.to_owned());
                 }
-                _ => None,
-            })
-            .collect::<Vec<_>>();
+            }
+            if let Some(spec) = format.spec {
+                if let Some(parsing::Count::Parameter(parsing::Argument::Identifier(
+                    name,
+                ))) = spec.width
+                {
+                    used_args.push(name.to_owned());
+                }
+                if let Some(parsing::Precision::Count(parsing::Count::Parameter(
+                    parsing::Argument::Identifier(name),
+                ))) = spec.precision
+                {
+                    used_args.push(name.to_owned());
+                }
+            }
+        }
 
-        fields.fmt_args_idents().filter_map(move |field_name| {
-            (used_args.iter().any(|arg| field_name.unraw() == arg)
-                && !self.args.iter().any(|arg| {
-                    arg.alias
-                        .as_ref()
-                        .is_some_and(|(n, _)| n.unraw() == field_name.unraw())
-                }))
-            .then(|| quote! { #field_name = *#field_name })
-        })
+        fields
+            .fmt_args_idents()
+            .chain([format_ident!("_variant")])
+            .filter_map(move |field_name| {
+                let name = field_name.unraw().to_string();
+                (used_args.contains(&name)
+                    && !self.args.iter().any(|arg| {
+                        arg.alias
+                            .as_ref()
+                            .is_some_and(|(n, _)| n.unraw() == field_name.unraw())
+                    }))
+                .then(|| {
+                    if pointer_args.contains(&name) {
+                        quote! { #field_name = *#field_name }
+                    } else {
+                        quote! { #field_name = #field_name }
+                    }
+                })
+            })
     }
 
     /// Errors in case legacy syntax is encountered: `fmt = "...", (arg),*`.
